@@ -6,7 +6,7 @@ use sophia_api::dataset::{Dataset, MutableDataset};
 use sophia_api::graph::{Graph, MutableGraph};
 use sophia_api::prelude::*;
 use sophia_api::term::matcher::Any;
-use sophia_api::term::{BnodeId, GraphName, IriRef, SimpleTerm};
+use sophia_api::term::{BnodeId, GraphName, IriRef, SimpleTerm, Term};
 use sophia_api::quad::Quad;
 use sophia_api::triple::Triple;
 use sophia_inmem::dataset::{FastDataset, LightDataset};
@@ -104,7 +104,46 @@ fn check_g<G: MutableGraph + Graph + Default>(name: &str, hist: &[(bool, Q)]) {
     }
 }
 
+/// "index full => Err before any state change of the quad sets", on the 16-bit stores: fill the term index up to
+/// its last free slot, then insert a triple/quad needing two new terms: the first gets the last slot, the second
+/// makes ensure_index fail; the store must report an error and hold exactly what it held before.
+fn check_index_full() {
+    use sophia_inmem::dataset::small::{FastDataset as SFD, LightDataset as SLD};
+    use sophia_inmem::graph::small::{FastGraph as SFG, LightGraph as SLG};
+    fn it(i: usize) -> SimpleTerm<'static> { SimpleTerm::Iri(IriRef::new_unchecked(format!("x:t{}", i).into())) }
+    const MAX: usize = u16::MAX as usize; // 65535 is reserved: 65535 terms fit (indices 0..65534)
+    macro_rules! graph { ($ty:ty, $name:expr) => {{
+        let mut g = <$ty>::new();
+        // terms 0 (predicate/object) and 1..=MAX-2 as subjects: MAX-1 terms, one slot left
+        for i in 1..=(MAX - 2) { g.insert(it(i), it(0), it(0)).unwrap(); }
+        let before = g.triples().count();
+        let r = g.insert(it(1_000_000), it(0), it(1_000_001));
+        let after: Vec<(bool, bool)> = g.triples().map(|t| { let t = t.unwrap(); (Term::eq(&t.s(), it(1_000_000)), Term::eq(&t.o(), it(1_000_001))) }).collect();
+        if r.is_ok() || after.len() != before || after.iter().any(|(a, b)| *a || *b) {
+            fail($name, &[], format!("index full: insert returned {:?}, triples {} -> {}", r.map_err(|e| e.to_string()), before, after.len()));
+        }
+        let m = g.triples_matching([it(1_000_000)], Any, Any).count() + g.triples_matching(Any, Any, [it(1_000_000)]).count() + g.triples_matching(Any, [it(1_000_000)], Any).count();
+        if m != 0 { fail($name, &[], format!("index full: a failed insert left {} matching triples behind", m)); }
+    }}}
+    graph!(SFG, "small::FastGraph");
+    graph!(SLG, "small::LightGraph");
+    macro_rules! dataset { ($ty:ty, $name:expr) => {{
+        let mut d = <$ty>::new();
+        for i in 1..=(MAX - 2) { d.insert(it(i), it(0), it(0), None::<SimpleTerm>).unwrap(); }
+        let before = d.quads().count();
+        let r = d.insert(it(0), it(0), it(1_000_000), Some(it(1_000_001)));
+        let after = d.quads().count();
+        let m = d.quads_matching(Any, Any, [it(1_000_000)], Any).count() + d.quads_matching(Any, Any, Any, [Some(it(1_000_001))]).count();
+        if r.is_ok() || after != before || m != 0 {
+            fail($name, &[], format!("index full: insert returned {:?}, quads {} -> {}, {} leftovers", r.map_err(|e| e.to_string()), before, after, m));
+        }
+    }}}
+    dataset!(SFD, "small::FastDataset");
+    dataset!(SLD, "small::LightDataset");
+}
+
 fn main() {
+    check_index_full();
     let qs = quads();
     let mut ops: Vec<(bool, Q)> = vec![];
     for q in &qs { ops.push((true, *q)); ops.push((false, *q)); }
